@@ -68,7 +68,7 @@ Proof.
       destruct (find _ (cs_hooks (st_cls s howner))) as [[t' h']|] eqn:Ef; auto.
       apply find_some in Ef. destruct Ef as [Hin Hsub]. cbn in Hsub.
       rewrite (i_hooks _ _ _ _ (I howner) t' h' Hin). unfold hook_pure.
-      rewrite <- (is_sub_root _ _ Hsub), Er. reflexivity. }
+      rewrite (is_sub_root _ _ Hsub Er). reflexivity. }
     rewrite Eh. intro H; inversion H; subst. split; [reflexivity|]. split.
     + now apply InvG_add_hook.
     + apply pres_updc; [intro; split; reflexivity | reflexivity].
